@@ -1,6 +1,65 @@
 """Hooks that run the bounded stand-ins (E2) of a property; see pyvc/bounded.py for the protocol."""
 from pyvc.bounded import run_harness
 
+C13_OBS = ("scope_table", "sources_proximity_order", "only_permitted_sources", "get_closest_and_only_if_different",
+           "set_unset_every_mirror", "show_subset", "refusals", "root_scope_gate")
+
 
 def trie(run, tier):
     run_harness(run, "trie.py", tier)
+
+
+def cmdline(run, tier):
+    run_harness(run, "cmdline.py", tier)
+
+
+def setup_policy(run, tier):
+    run_harness(run, "setup_policy.py", tier)
+
+
+def pool_scopes(run, tier):
+    run_harness(run, "pool_ops.py", tier, only=lambda ob: ob in C13_OBS)
+
+
+def pool_transfers(run, tier):
+    run_harness(run, "pool_ops.py", tier, only=lambda ob: ob not in C13_OBS)
+
+
+def update_tool(run, tier):
+    run_harness(run, "update_tool.py", tier)
+
+
+def states_vm(run, tier):
+    run_harness(run, "states_vm.py", tier)
+
+
+def network(run, tier):
+    run_harness(run, "network.py", tier)
+
+
+def tunnel(run, tier):
+    run_harness(run, "tunnel.py", tier)
+
+
+def manu_steps(run, tier):
+    run_harness(run, "manu_steps.py", tier)
+
+
+def sync_states(run, tier):
+    run_harness(run, "sync_scan_pull.py", tier, only=lambda ob: ob.startswith("A"))
+
+
+def scan_states(run, tier):
+    run_harness(run, "sync_scan_pull.py", tier, only=lambda ob: ob.startswith("B") or ob.startswith("S_"))
+
+
+def pull_locations(run, tier):
+    run_harness(run, "sync_scan_pull.py", tier, only=lambda ob: ob.startswith("C") or ob.startswith("S_"))
+
+
+def graph_wf(run, tier):
+    run_harness(run, "graph_wf.py", tier, only=lambda ob: "bridging" not in ob and "lazy" not in ob and "deterministic" not in ob)
+
+
+def graph_copies(run, tier):
+    run_harness(run, "graph_wf.py", tier, only=lambda ob: "bridging" in ob or "lazy" in ob or "deterministic" in ob)
